@@ -28,6 +28,7 @@ pub fn recasings(lang: &text2num::Language, l: L, words: &[&str]) -> Vec<(&'stat
         ("aLtErNaTiNg", words.iter().map(|w| alternating(w)).collect()),
         ("NUMBER words upper", words.iter().zip(&is_num).map(|(w, n)| if *n { w.to_uppercase() } else { w.to_string() }).collect()),
         ("OTHER words upper", words.iter().zip(&is_num).map(|(w, n)| if !*n { w.to_uppercase() } else { w.to_string() }).collect()),
+        ("all lower", words.iter().map(|w| w.to_lowercase()).collect()),
         ("only non-ASCII letters upper", words.iter().map(|w| w.chars().map(|c| if c.is_ascii() { c.to_string() } else { c.to_uppercase().collect::<String>() }).collect::<String>()).collect()),
     ]
 }
@@ -37,6 +38,8 @@ fn one_stream(ctx: &Ctx, acc: &mut Acc, l: L, lang: &text2num::Language, syms: &
     let base_text = syms.join(" ");
     let base_t2d = guard(|| text2digits(&base_text, lang).ok());
     let base_toks: Vec<HTok> = syms.iter().enumerate().map(|(i, w)| HTok::new(i, w)).collect();
+    // U+0130 lower-cases to 'i' + a combining dot, which the tokenizer treats as a separator
+    let has_splitting_capital = base_text.contains('\u{130}');
     for (name, rc) in recasings(lang, l, syms) {
         let text = rc.join(" ");
         if text == base_text || text.to_lowercase() != base_text.to_lowercase() {
@@ -74,6 +77,15 @@ fn one_stream(ctx: &Ctx, acc: &mut Acc, l: L, lang: &text2num::Language, syms: &
                 (o1, o2, out2, toks2)
             });
             let Ok((o1, o2, out2, toks2)) = r else { continue };
+            if has_splitting_capital {
+                // the lower-case form of this text is segmented differently (combining mark), so token indices
+                // are not comparable: compare which numbers are recognised, their digit text and value
+                let sig = |v: &Vec<stream::Occ>| v.iter().map(|o| (o.text.clone(), o.value_bits, o.is_ordinal)).collect::<Vec<_>>();
+                if sig(&o1) != sig(&o2) {
+                    ctx.report(acc, Violation { lang: l.code().into(), entry: "find_text".into(), input: text.clone(), threshold: Some(t), clause: format!("numbers recognised in recase(s) = numbers recognised in s [{name}]"), expected: stream::show_occs(&o1), observed: stream::show_occs(&o2) });
+                }
+                continue;
+            }
             if o1 != o2 {
                 ctx.report(acc, Violation { lang: l.code().into(), entry: "find_text".into(), input: text.clone(), threshold: Some(t), clause: format!("occurrences(recase(s)) = occurrences(s) [{name}]"), expected: stream::show_occs(&o1), observed: stream::show_occs(&o2) });
                 continue;
@@ -88,7 +100,14 @@ fn one_stream(ctx: &Ctx, acc: &mut Acc, l: L, lang: &text2num::Language, syms: &
 
 pub fn alphabet(l: L, n: usize) -> Vec<String> {
     let c = vocab::cls(l);
-    let mut v = vec![c.one, c.tens, c.ordinary, c.linking, c.unit, c.small_ord, c.conj, c.hundred, ",".to_string(), c.sep, l.linking()[1].to_string(), c.zero, c.large_ord, c.thousand, ".".to_string(), c.teen, c.million];
+    let mut v = vec![c.one, c.tens, c.ordinary, c.linking, c.unit, c.small_ord, c.conj, c.hundred, ",".to_string(), c.sep, c.unit2, "\u{212a}x".to_string(), "\u{23a}x".to_string(), l.linking()[1].to_string(), c.zero, c.large_ord, c.thousand, ".".to_string(), c.teen, c.million];
+    match l {
+        L::En => v.insert(10, "o".into()),
+        L::Fr => {
+            v.insert(10, "le".into());
+        }
+        _ => {}
+    }
     if let Some(x) = c.compound {
         v.push(x);
     }
@@ -104,7 +123,7 @@ pub fn alphabet(l: L, n: usize) -> Vec<String> {
 
 pub fn run(tier: Tier) -> i32 {
     let ctx = Ctx::new("C11", tier);
-    let (n1, k1, n2, k2) = tier.pick((16usize, 4usize, 10usize, 5usize), (18, 5, 10, 6));
+    let (n1, k1, n2, k2) = tier.pick((21usize, 3usize, 14usize, 4usize), (22, 4, 13, 6));
     let mut total = Acc::new();
     let mut alphas = vec![];
     for l in langs::ALL {
@@ -126,7 +145,7 @@ pub fn run(tier: Tier) -> i32 {
     }
     let cov = json!({
         "exhaustive": true,
-        "rule": "every word sequence of length <= k over the class alphabet (+ every vocabulary word alone) in 6 recasings (UPPER, Title, alternating, only number words upper, only other words upper, only non-ASCII letters upper), kept when lower(recase(s)) = lower(s); token path, text path and validator compared with the lower-case original at every threshold; non-trivial = (sequence, recasing) pairs actually different from the original",
+        "rule": "every word sequence of length <= k over the class alphabet (+ every vocabulary word alone) in 7 recasings (UPPER, Title, alternating, only number words upper, only other words upper, all lower, only non-ASCII letters upper; the alphabet contains words with capitals whose lower-case form has another UTF-8 length: KELVIN SIGN (shorter) and U+023A (longer)), kept when lower(recase(s)) = lower(s); token path, text path and validator compared with the lower-case original at every threshold; non-trivial = (sequence, recasing) pairs actually different from the original",
         "bounds": {"wide_alphabet": n1, "wide_depth": k1, "deep_alphabet": n2, "deep_depth": k2},
         "thresholds": T.iter().map(|t| thr_name(*t)).collect::<Vec<_>>(),
         "alphabets": alphas,
